@@ -300,6 +300,8 @@ func (p *plugin) CallStack(data interface{}) map[string]interface{} {
 	}
 	return map[string]interface{}{
 		"Probe": func() string { p.probe(call); return "" },
+		// Echo takes one argument (for hook expressions that use a variable)
+		"Echo": func(s string) string { p.probe(call); return "" },
 	}
 }
 
